@@ -7,7 +7,7 @@ from .core import Q, to_real
 class Contract:
     def __init__(self, qual, params=None, fix=None, requires=None, ensures=None, raises=None, modifies=(),
                  result=None, inline=False, world=None, invariants=True, props=(), note=None, ghost_pre=None,
-                 assumed=False, yields=None, step=None, locals_types=None, effect=None):
+                 assumed=False, yields=None, step=None, locals_types=None, effect=None, ghost=None):
         self.qual = qual
         self.params = params or {}
         self.fix = fix or {}
@@ -25,6 +25,7 @@ class Contract:
         self.yields = yields                # generators: {yield ordinal: fn(c) -> clauses} (what holds while suspended there)
         self.step = step                    # generators: fn(c) -> clauses relating segment start (c.o) and end (c.n); c.x['frm'], c.x['to']
         self.locals_types = locals_types    # generators: types of the locals live across yields
+        self.ghost = ghost                  # fn(eng, vals): ghost-state update performed when the function completes normally
         self.effect = effect                # fn(eng, vals, result_view): extra effect at call sites (e.g. a spawn)
 
 
